@@ -388,6 +388,14 @@ XSET = {
 }
 
 
+# provider expressions that mention identifiers of a DOT-imported package (function, composite literal, type argument,
+# inside a function literal): the generated file imports the package by name and has to qualify them (repaired)
+DOT_IMPORT = {
+    "prov/p.go": 'package prov\n\ntype A struct{ S string }\n\nfunc NewA() *A { return &A{S: "a"} }\n',
+    "k.go": 'package main\n\nimport (\n\t"github.com/mazrean/kessoku"\n\t. "vscratch/dot_import/prov"\n)\n\ntype B struct{ A *A }\ntype Box[T any] struct{ V T }\n\nfunc NewBox[T any]() Box[T] { return Box[T]{} }\nfunc NewB(a *A, b Box[A], n Name) *B { return &B{A: a} }\n\ntype Name string\n\nvar _ = kessoku.Inject[*B]("InitB", kessoku.Value(&A{S: "lit"}), kessoku.Provide(NewBox[A]), kessoku.Provide(func() Name { a := NewA(); return Name(a.S) }), kessoku.Async(kessoku.Provide(NewB)))\n\nvar _ = kessoku.Inject[*A]("InitA", kessoku.Provide(NewA))\n\nfunc main() {\n\tif s := InitB(nil).A.S + InitA().S; s != "lita" {\n\t\tpanic("wrong result " + s)\n\t}\n}\n',
+}
+
+
 def write_pkg(mod, name, files):
     d = os.path.join(mod, name)
     os.makedirs(d, exist_ok=True)
@@ -451,6 +459,7 @@ def _stage(seed, tier, key="N-x"):
     for i in range(8 if tier == "quick" else 40):
         files, targets, meta = third_pkg_clash(rnd, i)
         pkgs.append(("tp%d" % i, files, targets, None, meta))
+    pkgs.append(("dot_import", DOT_IMPORT, ["k.go"], None, dict(kind="identifiers of a dot-imported package in provider expressions", run=True)))
     pkgs.append(("xset", XSET, ["k.go"], "KF-C10-1", dict(kind="known finding reproducer (Set of another package)", signature="no vet signature: the file compiles",
                                                        expect_params={"k_band.go": {"InitB": []}}, known_params={"k_band.go": {"InitB": ["*prov.A"]}})))
     for kid, (body, sig) in KNOWN.items():
